@@ -9,7 +9,7 @@ sys.dont_write_bytecode = True
 
 VERIF = os.path.dirname(os.path.dirname(os.path.abspath(__file__)))
 REPO = os.environ.get('VERIF_REPO', '/repo')
-WORK = os.path.join(VERIF, '.work')
-EVID = os.path.join(VERIF, 'evidence')
-REPLAY = os.path.join(VERIF, 'replay')
+WORK = os.environ.get('VERIF_WORK') or os.path.join(VERIF, '.work')
+EVID = os.environ.get('VERIF_EVID') or os.path.join(VERIF, 'evidence')
+REPLAY = os.environ.get('VERIF_REPLAY') or os.path.join(VERIF, 'replay')
 NCPU = int(os.environ.get('VERIF_JOBS', '16'))
